@@ -159,8 +159,30 @@ def bs(ctx: Ctx) -> BuildState:
 # ---------------------------------------------------------------------------------------------- LCK-SET
 def _accesses(ctx: Ctx, b: BuildState):
     for f in pkg_funcs(ctx):
+        # a state container merely handed to a package function is not touched here: the callee's use of that parameter is the access
+        handed: Dict[int, Tuple[FuncInfo, str]] = {}
+        for call, q in ctx.calls_in(f):
+            if q in ctx.P.funcs:
+                callee = ctx.P.funcs[q]
+                ca = callee.node.args
+                cparams = [x.arg for x in ca.posonlyargs + ca.args + ca.kwonlyargs]
+                skip = 1 if (callee.cls is not None and isinstance(call.func, ast.Attribute)) else 0
+                for i, a in enumerate(call.args):
+                    if isinstance(a, ast.Name) and i + skip < len(cparams):
+                        handed[id(a)] = (callee, cparams[i + skip])
+                for k in call.keywords:
+                    if k.arg in cparams and isinstance(k.value, ast.Name):
+                        handed[id(k.value)] = (callee, k.arg)
         for n in iter_own_nodes(f.node):
             if isinstance(n, (ast.Name, ast.Attribute)):
+                if id(n) in handed:
+                    r0 = b.resolve(f, n)
+                    if r0 is not None and r0[1] in b.state:
+                        callee, pn = handed[id(n)]
+                        for u in iter_own_nodes(callee.node):
+                            if isinstance(u, ast.Name) and u.id == pn and isinstance(u.ctx, ast.Load):
+                                yield callee, u, r0[1]
+                        continue
                 if isinstance(n, ast.Attribute) and isinstance(getattr(n, "ctx", None), ast.Load) is False and not isinstance(n.ctx, (ast.Store, ast.Del)):
                     continue
                 r = b.resolve(f, n)
